@@ -445,9 +445,9 @@ Section Label.
     end.
 End Label.
 
-(* Which of the two label models Check.v ties to the code.  false = the pinned d2 (CapsLock fires unless
-   text-transform is "none"); set to true when coq/C28/fix.patch has been applied to d2. *)
-Definition capslock_fix_applied : bool := false.
+(* Which of the two label models Check.v ties to the code.  false = d2 before commit e14844563 (CapsLock fires
+   unless text-transform is "none"); true = d2 with coq/C28/fix.patch applied (e14844563 and later). *)
+Definition capslock_fix_applied : bool := true.
 
 Definition valid_tts : list string := ["none"; "uppercase"; "lowercase"; "capitalize"].
 
